@@ -374,3 +374,23 @@ pub fn chain(rng: &mut Rng, kind: usize, depth: usize, acts: &[Act], allow_pool:
     }
     NetCfg::plain(input, layers)
 }
+
+/// Inserts a shape-preserving feedback block (no internal skips, mean coupling) at a random
+/// position before the last layer; returns false if that made the network invalid.
+pub fn insert_block(rng: &mut Rng, cfg: &mut NetCfg, max_loops: usize) -> bool {
+    let shapes = match cfg.shapes() {
+        Ok(s) => s,
+        Err(_) => return false,
+    };
+    let pos = rng.range(0, cfg.layers.len() - 1);
+    let cur = if pos == 0 { cfg.input } else { shapes[pos - 1].1 };
+    let len = rng.range(1, 2);
+    let body = preserving_body(rng, cur, len, &ELEMENTWISE, false);
+    let block = LCfg::Feedback { body, loops: rng.range(1, max_loops), inskips: false, outskips: false, acc: Acc::Mean };
+    cfg.layers.insert(pos, block);
+    if cfg.shapes().is_err() {
+        cfg.layers.remove(pos);
+        return false;
+    }
+    true
+}
